@@ -106,14 +106,14 @@ vharness! {
 }
 
 vharness! {
-    /// @prop C08,C05 @tier quick @mode fast @cost 2 @funcs Condvar::notify_all,Set::unpark @bounds 3 threads, 2 queued waiters, all clock values
+    /// @prop C08,C05 @tier thorough @mode fast @cost 2 @funcs Condvar::notify_all,Set::unpark @bounds 3 threads, 2 queued waiters, all clock values
     /// notify_all wakes every queued waiter and empties the queue.
     #[cfg_attr(kani, kani::unwind(8))]
     fn condvar_notify_all_two() { notify_case(2, true) }
 }
 
 vharness! {
-    /// @prop C08 @tier quick @mode fast @cost 2 @funcs Condvar::notify_one @bounds 3 threads, no waiter
+    /// @prop C08 @tier thorough @mode fast @cost 2 @funcs Condvar::notify_one @bounds 3 threads, no waiter
     /// notify_one without waiters wakes nobody and stores nothing (a later wait still blocks).
     #[cfg_attr(kani, kani::unwind(8))]
     fn condvar_notify_one_none() { notify_case(0, false) }
